@@ -61,6 +61,7 @@ def gen_params(rng, variant=None):
         {"prod": "P", "assets": "A", "shots": "S", "output": "O", "export": "E", "renders": "R"}])
     p["mapping_style"] = "demo" if ident else rng.choice(["demo", "identity", "swap", "demo", "partial"])
     p["leaf_per_basetype"] = False if ident else rng.random() < 0.5
+    p["prefix_vocab"] = False        # (set by the C20 stratification only: a closed vocabulary with 'x' and 'x<sep>big' - see known finding resolva_repeated_placeholder)
     p["derived_configs"] = False if ident else rng.random() < 0.4      # secondary path configurations derived from the main module ("import *")
     p["constants"] = True if ident else rng.random() < 0.7
     p["explicit_intermediates"] = False if ident else rng.random() < 0.4
@@ -76,6 +77,9 @@ def _digits(prefix, n):
 
 
 def build(p):
+    if p.get("prefix_vocab") and p.get("with_assettype", True) and not any(v.endswith(p["sep"] + "big") for v in p["asset_types"]):
+        # one value of a closed vocabulary is another one + the file-name separator + text (listed AFTER the short one)
+        p = dict(p, asset_types=list(p["asset_types"]) + [p["asset_types"][0] + p["sep"] + "big"])
     """Returns a structured description used by emit()."""
     K = p["keys"]
     A, S, P = p["bt_asset"], p["bt_shot"], p["bt_project"]
